@@ -537,16 +537,39 @@ def _run_model(scal, fracs, h):
     es = model.equation_system
     U = model.units
     sds = model.mdg.subdomains()
+    intfs = model.mdg.interfaces()
+    L = float(U.convert_units(1.0, "m"))           # simulation length per metre
+
+    def canonical(values, coords, dims, absolute=False):
+        """Values re-ordered by SI location (the numbering of cells / faces is a meshing
+        detail that may differ between unit systems, e.g. the direction in which a 1-d
+        fracture grid is numbered): sort by (dimension, x, y, z); values sharing a location
+        (the two sides of a fracture) are sorted among themselves.  Face fluxes are compared
+        in magnitude (the sign follows the arbitrary orientation of the face normal)."""
+        v = np.abs(values) if absolute else np.asarray(values, dtype=float)
+        k = np.round(np.asarray(coords) / L / 1e-7).astype(np.int64)
+        order = np.lexsort((v, k[2], k[1], k[0], -np.asarray(dims)))
+        return v[order]
+
+    cc = np.hstack([g.cell_centers for g in sds])
+    cd = np.hstack([np.full(g.num_cells, g.dim) for g in sds])
+    fc = np.hstack([g.face_centers for g in sds])
+    fd = np.hstack([np.full(g.num_faces, g.dim) for g in sds])
+    mc = np.hstack([i.cell_centers for i in intfs]) if intfs else np.zeros((3, 0))
+    md = np.hstack([np.full(i.num_cells, i.dim) for i in intfs]) if intfs else np.zeros(0)
     out = {
-        "pressure": U.convert_units(es.get_variable_values(
+        "pressure": canonical(U.convert_units(es.get_variable_values(
             variables=[model.pressure_variable], time_step_index=0), "Pa", to_si=True),
-        "interface_darcy_flux": U.convert_units(es.get_variable_values(
+            cc, cd),
+        "interface_darcy_flux": canonical(U.convert_units(es.get_variable_values(
             variables=[model.interface_darcy_flux_variable], time_step_index=0),
-            "Pa * m^2 * s^-1", to_si=True),
-        "darcy_flux": U.convert_units(es.evaluate(model.darcy_flux(sds)),
-                                      "Pa * m^2 * s^-1", to_si=True),
-        "fluid_flux": U.convert_units(es.evaluate(model.fluid_flux(sds)),
-                                      "kg * m^-1 * s^-1", to_si=True),
+            "Pa * m^2 * s^-1", to_si=True), mc, md),
+        "darcy_flux": canonical(U.convert_units(es.evaluate(model.darcy_flux(sds)),
+                                                "Pa * m^2 * s^-1", to_si=True), fc, fd,
+                                absolute=True),
+        "fluid_flux": canonical(U.convert_units(es.evaluate(model.fluid_flux(sds)),
+                                                "kg * m^-1 * s^-1", to_si=True), fc, fd,
+                                absolute=True),
     }
     info = {"iterations": int(model.nonlinear_solver_statistics.num_iteration),
             "cells": int(model.mdg.num_subdomain_cells()),
